@@ -906,7 +906,9 @@ func negativeAAAATTL(m *dns.Msg) (uint32, bool) {
 	for _, rr := range m.Ns {
 		if soa, ok := rr.(*dns.SOA); ok {
 			ttl := soa.Hdr.Ttl
-			if soa.Minttl > 0 && soa.Minttl < ttl {
+			// MINIMUM 0 is a negative TTL of zero like any other value;
+			// presence is what the second result reports.
+			if soa.Minttl < ttl {
 				ttl = soa.Minttl
 			}
 			return ttl, true
